@@ -30,6 +30,19 @@ type counters struct {
 
 func (c *counters) ran() bool { return c.handler+c.unaryInt+c.streamInt > 0 }
 
+// cntKey carries the counters of one request in its context, so that
+// application code run for overlapping requests on one server is attributed to
+// the request it ran for (the library derives the handler's context from the
+// request's). Requests without it (the isolated sweep) use the env's counters.
+type cntKey struct{}
+
+func cntFor(ctx context.Context, fallback *counters) *counters {
+	if c, ok := ctx.Value(cntKey{}).(*counters); ok {
+		return c
+	}
+	return fallback
+}
+
 type env struct {
 	cfg *cfgVal
 	h   http.Handler
@@ -89,7 +102,7 @@ func newSvc(c *counters) *common.Svc {
 		Name:  svcName,
 		Order: []string{"U", "CS", "SS", "BD"},
 		Unary: map[string]common.UnaryFn{"U": func(ctx context.Context, dec func(interface{}) error) (interface{}, error) {
-			c.handler++
+			cntFor(ctx, c).handler++
 			in := new(gt.Message)
 			if err := dec(in); err != nil {
 				return nil, err
@@ -111,7 +124,7 @@ func newSvc(c *counters) *common.Svc {
 		}},
 		Streams: map[string]common.StreamDef{
 			"CS": {ClientStreams: true, Fn: func(s grpc.ServerStream) error {
-				c.handler++
+				cntFor(s.Context(), c).handler++
 				s.SetHeader(echoed(s.Context()))
 				s.SetTrailer(echoed(s.Context()))
 				var n int32
@@ -139,7 +152,7 @@ func newSvc(c *counters) *common.Svc {
 				return s.SendMsg(&gt.Message{Count: n, Payload: payload})
 			}},
 			"SS": {ServerStreams: true, Fn: func(s grpc.ServerStream) error {
-				c.handler++
+				cntFor(s.Context(), c).handler++
 				s.SetHeader(echoed(s.Context()))
 				s.SetTrailer(echoed(s.Context()))
 				m := new(gt.Message)
@@ -157,7 +170,7 @@ func newSvc(c *counters) *common.Svc {
 				return nil
 			}},
 			"BD": {ClientStreams: true, ServerStreams: true, Fn: func(s grpc.ServerStream) error {
-				c.handler++
+				cntFor(s.Context(), c).handler++
 				s.SetHeader(echoed(s.Context()))
 				s.SetTrailer(echoed(s.Context()))
 				var all []*gt.Message
@@ -200,11 +213,11 @@ func newEnv(cfg *cfgVal) *env {
 	var si grpc.StreamServerInterceptor
 	if cfg.Intercept {
 		ui = func(ctx context.Context, req interface{}, info *grpc.UnaryServerInfo, handler grpc.UnaryHandler) (interface{}, error) {
-			e.cnt.unaryInt++
+			cntFor(ctx, e.cnt).unaryInt++
 			return handler(ctx, req)
 		}
 		si = func(srv interface{}, ss grpc.ServerStream, info *grpc.StreamServerInfo, handler grpc.StreamHandler) error {
-			e.cnt.streamInt++
+			cntFor(ss.Context(), e.cnt).streamInt++
 			return handler(srv, ss)
 		}
 	}
@@ -267,34 +280,44 @@ type request struct {
 	Body      []byte
 }
 
-// do runs one request through the real handler tree on a recorder.
-func (e *env) do(rq *request) (o *observation) {
-	*e.cnt = counters{}
+// httpRequest builds the literal *http.Request.
+func (rq *request) httpRequest(ctx context.Context) *http.Request {
 	r := &http.Request{
 		Method: rq.Method, URL: &url.URL{Path: rq.Path}, Proto: "HTTP/1.1", ProtoMajor: 1, ProtoMinor: 1,
 		Header: http.Header{}, Body: io.NopCloser(bytes.NewReader(rq.Body)), ContentLength: int64(len(rq.Body)),
 		Host: "example.test", RemoteAddr: "192.0.2.1:1234", RequestURI: rq.Path,
 	}
-	r = r.WithContext(context.Background())
+	r = r.WithContext(ctx)
 	if rq.CTPresent {
 		r.Header["Content-Type"] = []string{rq.CT}
 	}
 	for _, kv := range rq.Hdr {
 		r.Header.Add(kv.K, kv.V)
 	}
+	return r
+}
+
+// panicText describes a recovered panic with the first library frame.
+func panicText(p interface{}) string {
+	s := fmt.Sprint(p)
+	for _, l := range strings.Split(string(debug.Stack()), "\n") {
+		if strings.Contains(l, "grpchan/") && strings.Contains(l, ".go:") {
+			s += " at " + strings.TrimSpace(l)
+			break
+		}
+	}
+	return s
+}
+
+// do runs one request through the real handler tree on a recorder.
+func (e *env) do(rq *request) (o *observation) {
+	*e.cnt = counters{}
+	r := rq.httpRequest(context.Background())
 	rec := httptest.NewRecorder()
 	o = &observation{}
 	defer func() {
 		if p := recover(); p != nil {
-			o.Panic = fmt.Sprint(p)
-			st := string(debug.Stack())
-			// keep the first library frame for the message
-			for _, l := range strings.Split(st, "\n") {
-				if strings.Contains(l, "grpchan/") && strings.Contains(l, ".go:") {
-					o.Panic += " at " + strings.TrimSpace(l)
-					break
-				}
-			}
+			o.Panic = panicText(p)
 			o.Cnt = *e.cnt
 		}
 	}()
